@@ -100,6 +100,13 @@ let () =
        | "repl" ->
            let o = repl libm clock sched nfuel (cps_of_field (fld 2)) in
            Buffer.add_string out (Printf.sprintf "%s\t%s\n" id (outcome_s o))
+       (* the flag-level evaluator (Model/FlagEval.v): every diagnostic, not only the first *)
+       | "ffile" ->
+           let o = frun_file libm clock sched nfuel (cps_of_field (fld 2)) (cps_of_field (fld 3)) in
+           Buffer.add_string out (Printf.sprintf "%s\t%s\n" id (outcome_s o))
+       | "frepl" ->
+           let o = frepl libm clock sched nfuel (cps_of_field (fld 2)) in
+           Buffer.add_string out (Printf.sprintf "%s\t%s\n" id (outcome_s o))
        | "cli" ->
            (* fields: args (each separated by '|'), filespec ("err" or "ok:<cps>"), stdin *)
            let argv = if fld 2 = "-" then [] else List.map cps_of_field (String.split_on_char '|' (fld 2)) in
